@@ -117,6 +117,45 @@ pub fn check_doc(rep: &mut Report, bytes: &[u8], strict: bool, class: &str) -> D
         }
         Err(e) => viol(rep, "fixed-point/serialize-fails", mode, e.to_string(), bytes, strict),
     }
+    // the file based pair: write() puts exactly the serialized text on disk and load_file() of that file gives the same model
+    if hash_bytes(bytes) % 8 == 0 {
+        if let Ok(s1) = file.serialize() {
+            thread_local! {
+                static PATH: std::path::PathBuf = {
+                    let dir = crate::report::verif_root().join("harness").join("target").join("tmp");
+                    let _ = std::fs::create_dir_all(&dir);
+                    dir.join(format!("c01-{}-{:?}.arxml", std::process::id(), std::thread::current().id()).replace(['(', ')'], ""))
+                };
+            }
+            let path = PATH.with(|p| p.clone());
+            if file.set_filename(&path).is_ok() {
+                match crate::panicmon::catch(|| model.write()) {
+                    Ok(Ok(())) => {
+                        rep.count("written_files", 1);
+                        match std::fs::read(&path) {
+                            Ok(on_disk) if on_disk == s1.as_bytes() => {}
+                            Ok(on_disk) => viol(rep, "write/file-differs-from-serialize", mode, format!("the file written by write() has {} bytes, serialize() returns {} bytes", on_disk.len(), s1.len()), bytes, strict),
+                            Err(e) => rep.count(&format!("written_file_unreadable:{}", e.kind()), 1),
+                        }
+                        let m3 = AutosarModel::new();
+                        match crate::panicmon::catch(|| m3.load_file(&path, strict)) {
+                            Ok(Ok(_)) => {
+                                let d1 = dump_tree(&Tree::of_model(&model), &opts);
+                                let d3 = dump_tree(&Tree::of_model(&m3), &opts);
+                                if d1 != d3 {
+                                    viol(rep, "write/load_file-model-differs", mode, format!("the model loaded with load_file from the written file differs: {}", crate::histprops::first_diff(&d1, &d3)), bytes, strict);
+                                }
+                            }
+                            Ok(Err(e)) => viol(rep, "write/load_file-rejected", &format!("{mode}:{}", crate::hist::err_variant(&e)), format!("the written file is rejected by load_file in the same mode: {e}"), bytes, strict),
+                            Err(_) => rep.count("loader_panicked(belongs to C02)", 1),
+                        }
+                    }
+                    Ok(Err(e)) => rep.count(&format!("write_failed:{}", crate::hist::err_variant(&e)), 1),
+                    Err(_) => rep.count("write_panicked(belongs to C12)", 1),
+                }
+            }
+        }
+    }
     let _ = d1;
     DocOutcome {
         accepted: true,
@@ -196,7 +235,7 @@ pub fn run(rep: &mut Report, tier: &str) {
         sub.name_in("versions", v.filename());
     });
     // (b) + (d) chunk documents
-    let n_docs = if thorough { 60_000 } else { 3_000 };
+    let n_docs = if thorough { 120_000 } else { 15_000 };
     let shards = 64;
     let per = n_docs / shards;
     run_shards(rep, shards, cpu_count(), 64, |shard, sub| {
